@@ -3,10 +3,10 @@
    that governs it (its context, the stream's close timeout, keep-alive detection) plus scheduling slack, whatever the
    broker does (answer, delay, drop, misaddress, disconnect); afterwards the connection still works (probe phase after
    the Mark "probe": every call succeeds).  The bound of each call is logged by the driver (boundMs; 0 = unbounded call:
-   not judged unless the watchdog fires).  Slack = 350 ms + 50 %.                                                    *)
+   not judged unless the watchdog fires).  Slack = 350 ms + 50 % + the scheduling stalls the harness recorded.                                                    *)
 EXTENDS MonCommon
 
-MonInit == [ calls |-> <<>>, watchdog |-> <<>>, probeI |-> 0, died |-> FALSE, stuck |-> 0 ]
+MonInit == [ calls |-> <<>>, watchdog |-> <<>>, probeI |-> 0, died |-> FALSE, stuck |-> 0, stallMs |-> 0 ]
 MonReset(e) == MonInit
 
 MonStep(m, e) ==
@@ -16,10 +16,12 @@ MonStep(m, e) ==
       [] e.ev = "Panic" -> [m EXCEPT !.died = TRUE]
       [] e.ev = "Exit" -> [m EXCEPT !.died = @ \/ e.status # 0]
       [] e.ev = "Stuck" -> [m EXCEPT !.stuck = @ + 1]
+      \* scheduling stalls recorded by the harness (stallWatch): a loaded machine delays the library's timers; every bound is extended by them
+      [] e.ev = "Stall" -> [m EXCEPT !.stallMs = @ + e.ms]
       [] OTHER -> m
 
 Allowed(b) == b + 350 + b \div 2
-Overrun(m) == \E c \in RangeS(m.calls) : c.bound > 0 /\ c.dur > Allowed(c.bound)
+Overrun(m) == \E c \in RangeS(m.calls) : c.bound > 0 /\ c.dur > Allowed(c.bound) + m.stallMs
 Hang(m) == m.watchdog # <<>>
 \* after the adversarial phase a cooperative broker must be served normally
 ProbeFailed(m) == m.probeI > 0 /\ \E c \in RangeS(m.calls) : c.ci > m.probeI /\ c.err # ""
